@@ -59,6 +59,9 @@ def run(ctx: Ctx):
     from .common import generic_lints
 
     generic_lints(ctx)
+    from .common import id_truthiness
+
+    id_truthiness(ctx)
 
 
 def _dict_in(fn: ast.FunctionDef, name: Optional[str] = None) -> Optional[ast.Dict]:
